@@ -295,11 +295,14 @@ func c01One(run *ev.Run, p c01P) {
 	if !bytes.Equal(sess.SIK, se.SIK) {
 		bad += fmt.Sprintf(" SIK lib=%x bmc=%x;", sess.SIK, se.SIK)
 	}
-	if k := sess.K(1); !bytes.Equal(k, se.K1) {
-		bad += fmt.Sprintf(" K1 lib=%x bmc=%x;", k, se.K1)
+	// the keys are read the way a caller would: all of them first, used afterwards
+	k1, k2, k1again, sik := sess.K(1), sess.K(2), sess.K(1), sess.SIK
+	_ = sess.K(3)
+	if !bytes.Equal(k1, se.K1) || !bytes.Equal(k1again, se.K1) {
+		bad += fmt.Sprintf(" K1 lib=%x/%x bmc=%x;", k1, k1again, se.K1)
 	}
-	if k := sess.K(2); !bytes.Equal(k, se.K2) {
-		bad += fmt.Sprintf(" K2 lib=%x bmc=%x;", k, se.K2)
+	if !bytes.Equal(k2, se.K2) {
+		bad += fmt.Sprintf(" K2 lib=%x bmc=%x;", k2, se.K2)
 	}
 	if sess.LocalID != se.ConsoleSID || sess.RemoteID != se.BMCSID {
 		bad += fmt.Sprintf(" IDs lib=(%#x,%#x) bmc=(%#x,%#x);", sess.LocalID, sess.RemoteID, se.ConsoleSID, se.BMCSID)
@@ -345,6 +348,10 @@ func c01One(run *ev.Run, p c01P) {
 			run.Violation("C01:wrong-response-body", fmt.Sprintf("caller got %x, BMC sent %x", cmd.Rsp.Data, sent[i].body), cs, nil)
 			return
 		}
+	}
+	if !bytes.Equal(sess.K(1), se.K1) || !bytes.Equal(sess.K(2), se.K2) || !bytes.Equal(sess.SIK, se.SIK) || !bytes.Equal(k1, se.K1) || !bytes.Equal(k2, se.K2) || !bytes.Equal(sik, se.SIK) {
+		run.Violation("C01:keys-change-after-use:"+p.Suite.String(), fmt.Sprintf("keys exposed by the session after %d commands: SIK %x K1 %x K2 %x (held copies %x %x %x), BMC has %x %x %x", p.Cmds, sess.SIK, sess.K(1), sess.K(2), sik, k1, k2, se.SIK, se.K1, se.K2), cs, nil)
+		return
 	}
 	if pr := problems(b); len(pr) > 0 {
 		run.Violation("C01:bmc-dropped-packets:"+p.Suite.String(), fmt.Sprintf("BMC logged problems: %v", pr), cs, nil)
